@@ -136,7 +136,7 @@ def gen_config(rng, all_atom=None, tier="quick"):
             if all_atom:
                 mol = gen_mol.gen_atomistic(rng, rng.randint(1, 7) if not aromatic_sites else rng.randint(4, 10),
                                             rich=(rng.random() < 0.35) or aromatic_sites,
-                                            hyper=("S", "P", "N") if hyper else (), explicit_h=explicit_h)
+                                            hyper=(("S", "P", "N", "exotic") if rng.random() < 0.3 else ("S", "P", "N")) if hyper else (), explicit_h=explicit_h)
                 if weighted:
                     for atom in mol.atoms:
                         if not atom["arom"] and atom["el"] != "H" and rng.random() < 0.4:
